@@ -212,3 +212,57 @@ func vfMITMScenario(tlsHello bool) {
 		vfrt.Assert(len(h["Proxy-Authorization"]) == 0, "mitm/client-proxy-authorization-not-forwarded")
 	}
 }
+
+//vf:assume C04-localhost-targets: localhost denial through the whole connection loop, by target spelling: every literal of the classifier harness's pool (loopback and unspecified addresses, IPv6 ones in brackets) and the name localhost, as GET http://host/ (no port), GET http://host:8080/, and CONNECT host:443; each is refused with 403 and nothing is dialled or forwarded; a remote IPv6 literal in the same three spellings passes
+
+//vf:harness property=C04 nopanic reach=localhost-target-get-no-port,localhost-target-get-port,localhost-target-connect,localhost-target-remote-passes steps=6000000
+func vfH_C04_localhost_targets() {
+	cfg := HTTPProxyConfig{}
+	cfg.Name = "fw"
+	cfg.ProxyLocalhost = DenyProxyLocalhost
+	hp := vfNewHTTPProxy(cfg)
+	rt := hp.transport.(*vfRoundTripper)
+	vfDials = 0
+	hosts := append(append([]string{}, vfLocalIPs...), "localhost", "2001:db8::1")
+	hi := vfrt.Choice("host", len(hosts))
+	host := hosts[hi]
+	local := hi < len(hosts)-1
+	for i := 0; i < len(host); i++ {
+		if host[i] == ':' {
+			host = "[" + host + "]" // an IPv6 literal in a URI or an authority
+			break
+		}
+	}
+	var wire string
+	connect := false
+	switch vfrt.Choice("spelling", 3) {
+	case 0:
+		vfrt.Reach("localhost-target-get-no-port")
+		wire = "GET http://" + host + "/x HTTP/1.1\r\nHost: " + host + "\r\n\r\n"
+	case 1:
+		vfrt.Reach("localhost-target-get-port")
+		wire = "GET http://" + host + ":8080/x HTTP/1.1\r\nHost: " + host + ":8080\r\n\r\n"
+	case 2:
+		vfrt.Reach("localhost-target-connect")
+		connect = true
+		wire = "CONNECT " + host + ":443 HTTP/1.1\r\nHost: " + host + ":443\r\n\r\n"
+	}
+	conn := martian.NewVfConn([]byte(wire))
+	martian.VfServeConn(hp.proxy, conn)
+	res, err := http.ReadResponse(bufio.NewReader(bytes.NewReader(conn.Out.Bytes())), &http.Request{Method: "GET"})
+	vfrt.Assert(err == nil, "localhost-targets/answered")
+	if err != nil {
+		return
+	}
+	if local {
+		vfrt.Assert(res.StatusCode == 403, "localhost-targets/refused-with-403-in-every-spelling")
+		vfrt.Assert(rt.calls == 0 && vfDials == 0, "localhost-targets/nothing-dialled-or-forwarded")
+		return
+	}
+	vfrt.Reach("localhost-target-remote-passes")
+	if connect {
+		vfrt.Assert(vfDials == 1, "localhost-targets/remote-literal-passes")
+	} else {
+		vfrt.Assert(rt.calls == 1 && res.StatusCode == 200, "localhost-targets/remote-literal-passes")
+	}
+}
